@@ -195,6 +195,9 @@ def process_object(data, dic):
             raise JSONParseError(str(e) + f" in object with ID `{id_}'") from None
 
         obj = klass.from_json_safe(data, dic)
+        # an object defined inside this one may have taken the same ID
+        if id_ in dic and dic[id_] is not obj:
+            raise JSONParseError(f"Object with ID `{id_}' already exists")
         dic[id_] = obj
     else:
         raise JSONParseError(
